@@ -511,6 +511,16 @@ theorem C10_cx_label_keyword_beats_later_primary (rule : IdxRule) :
     ((SemG.build (project (evalWith rule cxLabelOrder)).ops).nodes.map (·.label)) = ["", "L1"] := by
   cases rule <;> decide +kernel
 
+/-- `a -> b -> c: L; a -> b -> c: null`: null on a key that names a chain removes every link (each edge of the key is handled
+    in turn, as the loop of `_compileEdges`); the interpreter is compared with d2 on such programs, and the Spec
+    `chainNullRemovesAll` judges d2's own output -/
+def chainNullProgram : List Decl :=
+  [ .mk [] [cxE "a" "b" 0, cxE "b" "c" 5] none [] none (some (.str "L")) none,
+    .mk [] [cxE "a" "b" 20, cxE "b" "c" 25] none [] none (some .null) none ]
+theorem chain_null_removes_every_link (rule : IdxRule) :
+    (liveEdges (evalWith rule (chainNullProgram.take 1))).length = 2 ∧ liveEdges (evalWith rule chainNullProgram) = [] := by
+  cases rule <;> exact ⟨by decide +kernel, by decide +kernel⟩
+
 example : Name.ordinary { s := "a", q := false, pos := 0 } := ⟨by decide, by decide⟩
 
 end D2V.Sem
